@@ -24,7 +24,7 @@ def scenarios(tier):
     if tier == 'thorough':
         s += [Scenario('seq-cap2-grow-n5', 'C12/deque_seq.cpp', ['CAP=2', 'NOPS=5', OFFMAX, 'PUSHFIRST=3'], unwind=8, cover=[1, 2]),
               Scenario('seq-cap2-n5', 'C12/deque_seq.cpp', ['CAP=2', 'NOPS=5', OFFMAX], unwind=8, cover=[1, 2]),
-              Scenario('seq-cap4-grow-n7', 'C12/deque_seq.cpp', ['CAP=4', 'NOPS=7', OFFMAX, 'PUSHFIRST=5'], unwind=10, cover=[1, 2]),
+              Scenario('seq-cap4-grow-n6', 'C12/deque_seq.cpp', ['CAP=4', 'NOPS=6', OFFMAX, 'PUSHFIRST=5'], unwind=10, cover=[1, 2]),
               Scenario('mt-grow-vs-steal-off6-K3', MT, ['OFF=6', 'PREPUSH=2', 'NPUSH=2', 'NPOP=1', 'NSTEAL=2'], threads=2, K=3, unwind=6, cover=[2]),
               Scenario('mt-3threads-K2', MT, ['THIEF2', 'PREPUSH=2', 'NPUSH=1', 'NPOP=1'], threads=3, K=2, unwind=6, cover=[])]
     return s
